@@ -17,6 +17,7 @@ import shutil
 import subprocess
 import sys
 import tempfile
+import time
 import types
 from multiprocessing import Pool
 from pathlib import Path
@@ -275,6 +276,53 @@ def _tlc(module, consts, invs, props=(), simulate=None, depth=None, workers=16, 
         shutil.rmtree(tmp, ignore_errors=True)
 
 
+# ---------------------------------------------------------------------------
+# unbounded histories: inductive invariant of spec/ServiceHistoryInd.tla discharged by Apalache; that ServiceHistoryInd is the
+# same machine as ServiceHistory (minus the history variable) is a refinement checked by TLC (spec/ServiceHistoryRef.tla)
+MC_TEMPLATE = (Path(__file__).resolve().parents[2] / "spec" / "apalache" / "MC_ServiceHistoryInd.tla")
+
+
+def _apalache(switches, init, length):
+    import subprocess
+    tmp = Path(tempfile.mkdtemp(prefix="apa_"))
+    try:
+        shutil.copy(MC_TEMPLATE.parents[1] / "ServiceHistoryInd.tla", tmp / "ServiceHistoryInd.tla")
+        txt = MC_TEMPLATE.read_text()
+        for k, v in switches.items():
+            txt = txt.replace(f"{k} == FALSE", f"{k} == {'TRUE' if v else 'FALSE'}")
+        (tmp / "MC_ServiceHistoryInd.tla").write_text(txt)
+        t0 = time.time()
+        r = subprocess.run(["apalache-mc", "check", f"--init={init}", "--inv=IndInv", f"--length={length}", f"--out-dir={tmp / 'out'}",
+                            "MC_ServiceHistoryInd.tla"], cwd=tmp, capture_output=True, text=True, timeout=900)
+        out = r.stdout + r.stderr
+        verdict = "NoError" if "The outcome is: NoError" in out else "Error" if "The outcome is: Error" in out else "failed"
+        return verdict, round(time.time() - t0, 1), out[-600:]
+    finally:
+        shutil.rmtree(tmp, ignore_errors=True)
+
+
+def inductive_leg(run: Run, tier, consts):
+    ref = _tlc("ServiceHistoryRef.tla", dict(consts, DoEmit=False, MaxOps=3), ["IndInvHolds"], ["RefinesInd"])
+    run.add_tlc(ref, "ServiceHistoryRef (refinement of ServiceHistoryInd)")
+    if ref.violated:
+        run.machinery_errors.append(f"ServiceHistory does not refine ServiceHistoryInd: {ref.violated}\n{ref.error_trace[:800]}")
+    notes = {}
+    for label, init, length in (("base", "Init", 0), ("step", "IndInit", 1)):
+        v, secs, tail = _apalache({}, init, length)
+        notes[label] = dict(outcome=v, seconds=secs)
+        if v != "NoError":
+            run.machinery_errors.append(f"Apalache did not discharge the inductive invariant ({label}): {v}\n{tail}")
+    if tier == "thorough":
+        for sw in ("SharedGraphDefault", "MutatesModel", "LoadKeepsCache"):
+            v, secs, tail = _apalache({sw: True}, "IndInit", 1)
+            notes["mutant " + sw] = dict(outcome=v, seconds=secs)
+            if v != "Error":
+                run.machinery_errors.append(f"Apalache: induction step still holds with mutant {sw} ({v})")
+    run.notes["inductive_invariant_apalache"] = notes
+    run.assumptions.append("design level, any number of calls: IndInv of spec/ServiceHistoryInd.tla is inductive (Apalache 0.58, 3 problems, 7 channels); "
+                           "binding to the code remains the bounded replay below")
+
+
 def sheetnames_leg(run: Run, tier):
     repo_import()
     from OpenPinch.utils.export import _unique_sheet_name
@@ -328,6 +376,7 @@ def check(prop, tier, run: Run, replay_case=None):
     if res.violated:
         run.machinery_errors.append(f"spec/ServiceHistory.tla violates {res.violated}:\n{res.error_trace[:1000]}")
     run.cov["exhaustive"] = True
+    inductive_leg(run, tier, consts)
     cases = []
     if prop == "C11":
         # every history of 3 (quick) / 4 service calls over 3 problems x 4 input forms, all replayed
